@@ -348,6 +348,8 @@ func TestObjectHistory(t *testing.T) {
 		built, shrunk, heldAcross, loaded, refused := false, false, false, false, false
 		big, twins, loadedOver := false, false, false
 		twin := -1
+		var kept *keptExport
+		keptLoaded := false
 		build := func(step int) {
 			n := gen.Pick(rt, sizes, "n")
 			if gen.Chance(rt, 30, "nuniform") {
@@ -464,6 +466,26 @@ func TestObjectHistory(t *testing.T) {
 				if mt.GetRoot() != root {
 					rt.Fatalf("%v: a refused SetTree changed the root", log)
 				}
+			case k < 94:
+				// an export is kept as handed out (not copied) and loaded much later, after the exporter has moved on
+				if kept == nil {
+					kept = &keptExport{tree: mt.GetTree(), n: len(ls), root: root, leaf0: ls[0], hash0: hs[0]}
+					log = append(log, "keep export")
+				} else {
+					back := &util.MerkleTree{}
+					if err := back.SetTree(kept.n, kept.tree); err != nil {
+						rt.Fatalf("%v: an export kept since earlier no longer loads: %v", log, err)
+					}
+					if back.GetRoot() != kept.root {
+						rt.Fatalf("%v: an export kept since earlier loads to root %s, it was exported at root %s", log, back.GetRoot(), kept.root)
+					}
+					if p := back.GetPath(kept.hash0); !util.VerifyMerklePath(kept.leaf0, p, kept.root) {
+						rt.Fatalf("%v: the tree loaded from an export kept since earlier has no verifying path for its first leaf", log)
+					}
+					log = append(log, "load kept export")
+					kept = nil
+					keptLoaded = true
+				}
 			default:
 				tree := append([]string(nil), mt.GetTree()...)
 				mt2 := &util.MerkleTree{}
@@ -506,9 +528,21 @@ func TestObjectHistory(t *testing.T) {
 		if loadedOver {
 			cls = append(cls, "other-tree-loaded-into-used-object")
 		}
+		if keptLoaded {
+			cls = append(cls, "export-kept-and-loaded-later")
+		}
 		ev.Case(fmt.Sprint(log), nt, cls...)
 		if nt && ev.WantSample() {
 			ev.Sample(map[string]any{"history": log})
 		}
 	})
+}
+
+// keptExport is a GetTree result held on to while its exporter goes on.
+type keptExport struct {
+	tree  []string
+	n     int
+	root  string
+	leaf0 string
+	hash0 util.Hashable
 }
